@@ -233,7 +233,6 @@ Qed.
 (* ------------------------------------------------------------------ *)
 (* ValidateSchema compares exactly the pairs of vs_pairs               *)
 
-Definition pair_eq (p : Z * Z) : Prop := fst p = snd p.
 
 Lemma vs_sound : forall s q, validate_schema s q = true -> Forall pair_eq (vs_pairs s q).
 Proof.
@@ -299,8 +298,6 @@ Qed.
 (* ------------------------------------------------------------------ *)
 (* Dimensions of a validated schema are within the documented range    *)
 
-Definition doc_dim_ok (d : Z) : bool :=
-  in_range doc_vector_size_min doc_vector_size_max d || in_range doc_flat_vector_size_min doc_flat_vector_size_max d.
 
 Lemma ischema_ivalue : forall s k iv,
   validate_ischema s = true -> lookup k s = Some iv -> validate_ivalue iv = true.
@@ -590,8 +587,6 @@ Proof.
 Qed.
 
 (* but on a collection whose schema has no vamana index named "vector" they dereference nil *)
-Definition flat_only_schema : ischema :=
-  [("vec"%string, mkIV "vectorFlat" (Some (mkVP 2 "euclidean" 0 0 0%N None)) None None false false)].
 
 Lemma v1_nil_deref_refuted :
   validate_ischema flat_only_schema = true /\
@@ -746,10 +741,6 @@ Proof.
 Qed.
 
 (* the three gaps, as accepted requests that violate a documented bound *)
-Definition gap_schema (alpha : N) (q : option quantizer) : ischema :=
-  [("v"%string, mkIV "vectorVamana" None (Some (mkVP 2 "euclidean" 75 64 alpha q)) None false false)].
-Definition f32_nan : N := 2143289344%N.     (* 0x7FC00000 *)
-Definition f32_1_2 : N := 1067030938%N.     (* float32(1.2) *)
 
 Lemma gap_alpha_nan :
   validate_create2 (mkC2 3 [97; 98; 99]%N true (gap_schema f32_nan None)) = true /\
@@ -777,15 +768,23 @@ Lemma gap_pq_divisibility :
 Proof. vm_compute. repeat split; reflexivity. Qed.
 
 (* ---- search requests *)
+Lemma ge1_chain : forall a b x, (1 <=? a) = true -> in_range a b x = true -> (1 <=? x) = true.
+Proof. intros a b x A B. apply in_range_spec in B. apply Z.leb_le in A. apply Z.leb_le. lia. Qed.
+Lemma le_chain : forall a b c x, (b <=? c) = true -> in_range a b x = true -> (x <=? c) = true.
+Proof. intros a b c x A B. apply in_range_spec in B. apply Z.leb_le in A. apply Z.leb_le. lia. Qed.
+Ltac use_chain :=
+  match goal with
+  | [ A : (1 <=? ?a) = true, B : in_range ?a ?b ?x = true |- (1 <=? ?x) = true ] => exact (ge1_chain a b x A B)
+  | [ A : (?b <=? ?c) = true, B : in_range ?a ?b ?x = true |- (?x <=? ?c) = true ] => exact (le_chain a b c x A B)
+  end.
+
 Lemma ranked_doc_flat : forall (o : ropts query),
   in_range enf_flat_query_vector_min enf_flat_query_vector_max (r_len o) = true ->
   mem (r_op o) enf_flat_ops = true -> in_range enf_flat_limit_min enf_flat_limit_max (r_limit o) = true ->
   doc_ranked doc_flat_query_vector_max doc_flat_ops doc_flat_limit_min doc_flat_limit_max o = true.
 Proof.
   intros o A B C. pose proof search_side_ok as SS. unfold search_side in SS. split_side SS.
-  unfold doc_ranked. split_goal; try use_sub.
-  - apply in_range_spec in A. match goal with [ X : (1 <=? enf_flat_query_vector_min) = true |- _ ] => apply Z.leb_le in X; apply Z.leb_le; lia end.
-  - apply in_range_spec in A. match goal with [ X : (enf_flat_query_vector_max <=? doc_flat_query_vector_max) = true |- _ ] => apply Z.leb_le in X; apply Z.leb_le; lia end.
+  unfold doc_ranked. split_goal; first [use_sub | use_chain].
 Qed.
 Lemma ranked_doc_vamana : forall (o : ropts query),
   in_range enf_query_vector_min enf_query_vector_max (r_len o) = true ->
@@ -793,13 +792,11 @@ Lemma ranked_doc_vamana : forall (o : ropts query),
   doc_ranked doc_query_vector_max doc_vamana_ops doc_vamana_limit_min doc_vamana_limit_max o = true.
 Proof.
   intros o A B C. pose proof search_side_ok as SS. unfold search_side in SS. split_side SS.
-  unfold doc_ranked. split_goal; try use_sub.
-  - apply in_range_spec in A. match goal with [ X : (1 <=? enf_query_vector_min) = true |- _ ] => apply Z.leb_le in X; apply Z.leb_le; lia end.
-  - apply in_range_spec in A. match goal with [ X : (enf_query_vector_max <=? doc_query_vector_max) = true |- _ ] => apply Z.leb_le in X; apply Z.leb_le; lia end.
+  unfold doc_ranked. split_goal; first [use_sub | use_chain].
 Qed.
 
-Lemma nonzero_ge1 : forall x, 0 <= x -> negb (x =? 0) = true -> (1 <=? x) = true.
-Proof. intros x P H. apply negb_true_iff in H. apply Z.eqb_neq in H. apply Z.leb_le. lia. Qed.
+Lemma nonzero_ge1 : forall x, (0 <=? x) = true -> negb (x =? 0) = true -> (1 <=? x) = true.
+Proof. intros x P H. apply negb_true_iff in H. apply Z.eqb_neq in H. apply Z.leb_le in P. apply Z.leb_le. lia. Qed.
 
 Lemma forallb_impl_Forall : forall (f g : query -> bool) l,
   Forall (fun q => f q = true -> g q = true) l -> forallb f l = true -> forallb g l = true.
@@ -808,47 +805,143 @@ Proof.
   apply andb_true_iff in H. destruct H. apply andb_true_iff. split; auto.
 Qed.
 
-(* lengths are lengths: the harness reports them as non-negative numbers *)
-Fixpoint lens_nonneg (q : query) : bool :=
-  match q with
-  | Qry _ qflat qvam qtext qstr qint qflt qsarr qand qor =>
-    let r (o : option (ropts query)) :=
-      match o with
-      | Some x => (0 <=? r_len x) && match r_filter x with Some f => lens_nonneg f | None => true end
-      | None => true end in
-    r qflat && r qvam && r qtext
-    && oall (fun o => 0 <=? s_len o) qstr && oall (fun o => 0 <=? s_len o) qsarr
-    && forallb lens_nonneg qand && forallb lens_nonneg qor
-  end.
+
+Ltac peel H X := apply andb_true_iff in H; destruct H as [H X].
 
 Lemma query_doc : forall q, lens_nonneg q = true -> validate_query q = true -> doc_query q = true.
 Proof.
   intros q. induction q as [prop qflat qvam qtext qstr qint qflt qsarr qand qor Hf Hv Ht Ha Ho] using query_ind'.
   intros L H. pose proof search_side_ok as SS. unfold search_side in SS. split_side SS.
-  cbn [validate_query] in H. split_and H. rewrite ?gate_true in * by assumption.
-  cbn [lens_nonneg] in L. split_and L.
+  cbn [validate_query] in H.
+  peel H Vid. peel H Vfor. peel H Vfand. peel H Vnor. peel H Vnand. peel H Vsarr. peel H Vflt. peel H Vint.
+  peel H Vstr. peel H Vtext. peel H Vvam. peel H Vflat.
+  rewrite ?gate_true in * by assumption.
+  cbn [lens_nonneg] in L.
+  peel L Lor. peel L Land. peel L Lsarr. peel L Lstr. peel L Ltext. peel L Lvam.
   cbn [doc_query]. split_goal.
-  - assumption.
-  - destruct qflat as [o|]; [|reflexivity]. split_and C9. split_and L. rewrite ?gate_true in * by assumption.
+  - exact H.
+  - destruct qflat as [o|]; [|reflexivity].
+    peel Vflat Vfil. peel Vflat Vlim. peel Vflat Vop. peel L Lfil. rewrite ?gate_true in * by assumption.
     apply andb_true_iff. split; [apply ranked_doc_flat; assumption|].
     cbn in Hf. destruct (r_filter o); [auto | reflexivity].
-  - destruct qvam as [o|]; [|reflexivity]. split_and C8. split_and C4. rewrite ?gate_true in * by assumption.
+  - destruct qvam as [o|]; [|reflexivity].
+    peel Vvam Vfil. peel Vvam Vge. peel Vvam Vlim. peel Vvam Vss. peel Vvam Vop. peel Lvam Lfil.
+    rewrite ?gate_true in * by assumption.
     split_goal; [apply ranked_doc_vamana; assumption | use_sub |].
     cbn in Hv. destruct (r_filter o); [auto | reflexivity].
-  - destruct qtext as [o|]; [|reflexivity]. split_and C7. split_and C3. rewrite ?gate_true in * by assumption.
+  - destruct qtext as [o|]; [|reflexivity].
+    peel Vtext Vfil. peel Vtext Vlim. peel Vtext Vop. peel Ltext Lfil. rewrite ?gate_true in * by assumption.
     split_goal; try use_sub.
-    + apply nonzero_ge1; [apply Z.leb_le|]; assumption.
+    + apply nonzero_ge1; assumption.
     + cbn in Ht. destruct (r_filter o); [auto | reflexivity].
-  - destruct qstr as [o|]; [|reflexivity]. cbn [oall] in *. unfold validate_string in C6. split_and C6.
-    rewrite ?gate_true in * by assumption. split_goal; [|use_sub].
-    apply nonzero_ge1; [apply Z.leb_le|]; assumption.
-  - destruct qint as [o|]; [|reflexivity]. cbn [oall] in *. unfold validate_integer in C5. split_and C5. use_sub.
-  - destruct qflt as [o|]; [|reflexivity]. cbn [oall] in *. unfold validate_float in C10. split_and C10. use_sub.
-  - destruct qsarr as [o|]; [|reflexivity]. cbn [oall] in *. unfold validate_sarr in C11. split_and C11.
-    rewrite ?gate_true in * by assumption. split_goal; [|use_sub].
-    apply nonzero_ge1; [apply Z.leb_le|]; assumption.
-  - eapply forallb_impl_Forall; [|eassumption]. rewrite Forall_forall in *. intros x Hx Vx.
-    apply Ha; [exact Hx | | exact Vx]. rewrite forallb_forall in C0. auto.
-  - eapply forallb_impl_Forall; [|eassumption]. rewrite Forall_forall in *. intros x Hx Vx.
-    apply Ho; [exact Hx | | exact Vx]. rewrite forallb_forall in L. auto.
+  - destruct qstr as [o|]; [|reflexivity]. cbn [oall] in *. unfold validate_string in Vstr.
+    peel Vstr Vr. peel Vstr Vop. rewrite ?gate_true in * by assumption. split_goal; [|use_sub].
+    apply nonzero_ge1; assumption.
+  - destruct qint as [o|]; [|reflexivity]. cbn [oall] in *. unfold validate_integer in Vint. peel Vint Vr. use_sub.
+  - destruct qflt as [o|]; [|reflexivity]. cbn [oall] in *. unfold validate_float in Vflt. peel Vflt Vr. use_sub.
+  - destruct qsarr as [o|]; [|reflexivity]. cbn [oall] in *. unfold validate_sarr in Vsarr.
+    peel Vsarr Vop. rewrite ?gate_true in * by assumption. split_goal; [|use_sub].
+    apply nonzero_ge1; assumption.
+  - eapply forallb_impl_Forall; [|exact Vfand]. rewrite Forall_forall in *. intros x Hx Vx.
+    apply Ha; [exact Hx | | exact Vx]. rewrite forallb_forall in Land. auto.
+  - eapply forallb_impl_Forall; [|exact Vfor]. rewrite Forall_forall in *. intros x Hx Vx.
+    apply Ho; [exact Hx | | exact Vx]. rewrite forallb_forall in Lor. auto.
+Qed.
+
+Lemma search2_doc : forall r, lens_nonneg (sr_query r) = true -> validate_request r = true -> doc_search2 r = true.
+Proof.
+  intros r L H. pose proof search_side_ok as SS. unfold search_side in SS. split_side SS.
+  unfold validate_request in H. peel H Vlim. peel H Voff. peel H Vsp. peel H Vsn.
+  rewrite ?gate_true in * by assumption.
+  unfold doc_search2. split_goal.
+  - apply query_doc; assumption.
+  - match goal with [ A : (enf_sort_max <=? doc_sort_max) = true |- _ ] =>
+      apply Z.leb_le in A, Vsn; apply Z.leb_le; eapply Z.le_trans; eassumption end.
+  - exact Vsp.
+  - match goal with [ A : (doc_offset_min <=? enf_offset_min) = true |- _ ] =>
+      apply Z.leb_le in A, Voff; apply Z.leb_le; eapply Z.le_trans; eassumption end.
+  - use_sub.
+Qed.
+
+Lemma count_doc : forall A lo hi d (l : list A),
+  sub_range lo hi 1 d = true -> count_ok lo hi l = true -> doc_count d l = true.
+Proof. intros A lo hi d l S H. unfold count_ok in H. unfold doc_count. eapply sub_range_in; eassumption. Qed.
+
+Ltac use_count :=
+  match goal with
+  | [ A : sub_range ?lo ?hi 1 ?d = true, B : count_ok ?lo ?hi ?l = true |- doc_count ?d ?l = true ] =>
+      exact (count_doc _ lo hi d l A B)
+  end.
+
+Lemma points_doc :
+  (forall s r, validate_insert2 s r = true -> doc_count doc_points_insert_max (ps_points r) = true) /\
+  (forall s r, validate_update2 s r = true -> doc_count doc_points_update_max (ps_points r) = true) /\
+  (forall ids, validate_delete enf_delete_ids_min enf_delete_ids_max enf_delete_ids_uuid ids = true ->
+               doc_count doc_delete_ids_max ids = true /\ forallb (fun b => b) ids = true) /\
+  (forall r, validate_insert1 r = true ->
+             doc_count doc_v1_points_insert_max (ps1_points r) = true /\
+             forallb (fun p => in_range 1 doc_v1_insert_vector_max (p1_len p)) (ps1_points r) = true) /\
+  (forall r, validate_update1 r = true ->
+             doc_count doc_v1_points_update_max (ps1_points r) = true /\
+             forallb (fun p => in_range 1 doc_v1_update_vector_max (p1_len p)) (ps1_points r) = true) /\
+  (forall ids, validate_delete enf_v1_delete_ids_min enf_v1_delete_ids_max true ids = true ->
+               doc_count doc_v1_delete_ids_max ids = true /\ forallb (fun b => b) ids = true).
+Proof.
+  pose proof points_side_ok as PS. unfold points_side in PS. split_side PS.
+  repeat split.
+  - intros s r H. unfold validate_insert2 in H. peel H X. use_count.
+  - intros s r H. unfold validate_update2 in H. peel H X. use_count.
+  - unfold validate_delete in H. peel H X. use_count.
+  - unfold validate_delete in H. peel H X. rewrite ?gate_true in X by assumption. exact X.
+  - unfold validate_insert1, validate_points1 in H. peel H X. use_count.
+  - unfold validate_insert1, validate_points1 in H. peel H X.
+    rewrite forallb_forall in *. intros p Hp. specialize (X p Hp). peel X Y. use_sub.
+  - unfold validate_update1, validate_points1 in H. peel H X. use_count.
+  - unfold validate_update1, validate_points1 in H. peel H X.
+    rewrite forallb_forall in *. intros p Hp. specialize (X p Hp). peel X Y. use_sub.
+  - unfold validate_delete in H. peel H X. use_count.
+  - unfold validate_delete in H. peel H X. exact X.
+Qed.
+
+Lemma create1_doc : forall r, validate_create1 r = true -> doc_create1 r = 0%N.
+Proof.
+  intros r H. pose proof points_side_ok as PS. unfold points_side in PS. split_side PS.
+  unfold validate_create1 in H. peel H Vm. peel H Vs. peel H Vr.
+  unfold doc_create1. apply first_code_zero. repeat constructor; cbn [fst]; use_sub.
+Qed.
+
+Lemma search1_doc : forall r, validate_search1 r = true -> doc_search1 r = true.
+Proof.
+  intros r H. pose proof points_side_ok as PS. unfold points_side in PS. split_side PS.
+  unfold validate_search1 in H. peel H Vl.
+  assert (R : in_range 1 doc_v1_search_vector_max (s1_len r) = true) by use_sub.
+  unfold in_range in R. peel R R2. unfold doc_search1. split_goal; [exact R | exact R2 | use_sub].
+Qed.
+
+Lemma v1_limit_arith : forall lo1 hi1 lo2 hi2 x,
+  (hi1 <=? hi2) = true -> (lo2 <=? 1) = true -> (0 <=? lo1) = true -> x <> 0 ->
+  in_range lo1 hi1 x = true -> in_range lo2 hi2 x = true.
+Proof.
+  intros lo1 hi1 lo2 hi2 x A B C D E. apply Z.leb_le in A, B, C. apply in_range_spec in E. apply in_range_spec. lia.
+Qed.
+
+(* what the v1 search handler hands to the cluster passes the v2 query validation *)
+Lemma v1_query_valid : forall r, validate_search1 r = true -> validate_query (v1_query r) = true.
+Proof.
+  intros r H. pose proof points_side_ok as PS. unfold points_side in PS. split_side PS.
+  pose proof search_side_ok as SS. unfold search_side in SS. split_side SS.
+  unfold validate_search1 in H. peel H Vl.
+  assert (Lim : in_range enf_vamana_limit_min enf_vamana_limit_max (if s1_limit r =? 0 then 10 else s1_limit r) = true).
+  { destruct (s1_limit r =? 0) eqn:E; [assumption|]. apply Z.eqb_neq in E.
+    match goal with
+    | [ A : (enf_v1_search_limit_max <=? enf_vamana_limit_max) = true, B : (enf_vamana_limit_min <=? 1) = true,
+        C : (0 <=? enf_v1_search_limit_min) = true |- _ ] => exact (v1_limit_arith _ _ _ _ _ A B C E Vl)
+    end. }
+  assert (Ge : ((if s1_limit r =? 0 then 10 else s1_limit r) <=? v1_query_search_size) = true).
+  { apply in_range_spec in Lim. apply Z.leb_le.
+    match goal with [ X : (enf_vamana_limit_max <=? v1_query_search_size) = true |- _ ] => apply Z.leb_le in X; clear - X Lim; lia end. }
+  unfold v1_query. cbn [validate_query]. rewrite ?gate_true by assumption. cbn [oall forallb r_len r_op r_ssize r_limit r_filter].
+  cbn [seq String.eqb Ascii.eqb Bool.eqb andb negb].
+  rewrite ?andb_true_r. split_goal; try assumption.
+  use_sub.
 Qed.
